@@ -245,6 +245,17 @@ def normalise_map_slot(name):
 
 
 # ---------------------------------------------------------------------------------------------------------------
+class SubStep:
+    """the part of a multi-token segment that belongs to one token: the events from its first touch up to the first touch of the next token"""
+
+    def __init__(self, st, lo, hi, end):
+        self.seg = st.seg
+        self.tokens = st.tokens
+        self.stores = [x for x, i in zip(st.stores, st.store_idx) if lo <= i < hi or x[2] is not None]
+        self.subcalls = [x for x, i in zip(st.subcalls, st.subcall_idx) if lo <= i < hi]
+        self.end = end if end is not None else st.end
+
+
 class TableCheck:
     def __init__(self, prog, pa, spec, roles, slots, label, flag_param=None, core_fns=(), sub_fns=None):
         self.prog, self.pa, self.spec, self.roles, self.slots, self.label = prog, pa, spec, roles, slots, label
@@ -298,6 +309,11 @@ class TableCheck:
             self.pairs.add((node, q))
             for st in bysrc.get(node, []):
                 self.nsteps += 1
+                known = self.examined_all(st)
+                if len(known) > 1:
+                    # a segment that examines several subtags one after the other (a parser written as a sequence of phases rather than one loop)
+                    self.run_multi(st, known, 0, q, work)
+                    continue
                 tok = self.examined(st)
                 if tok is None:
                     # no token examined in this segment (set-up before the loop): nothing may be stored from the stream
@@ -329,6 +345,56 @@ class TableCheck:
                 if not matched and not S.is_empty():
                     self.add('PARSE-TABLE', q, '-', 'token class not covered by the specification table: %s' % S.describe()[:100])
         return self
+
+    # ---- segments that examine several tokens in sequence
+    def examined_all(self, st):
+        ts = [t for t in st.tokens if t.present is not None or t.shape is not None]
+        return sorted(ts, key=lambda t: (t.first, t.el[2]))
+
+    def run_multi(self, st, toks, i, q, work):
+        """token i of the segment against the rows of state q; every token but the last has to be consumed before the next one can be looked at, so its
+        part of the segment behaves like a step that goes on (`head`); the last token sees the real end of the segment"""
+        tok = toks[i]
+        last = i == len(toks) - 1
+        lo = tok.first
+        hi = toks[i + 1].first if not last else len(st.seg.events) + 1
+        sub = SubStep(st, lo if i > 0 else -1, hi, None if last else ('head', None))
+        if not last and not tok.consumed and tok.present != 'neg':
+            # cannot happen with a single cursor (the next element is reachable only through `next`); fail closed
+            self.add('PARSE-TABLE', q, '-', 'INCONCLUSIVE(a subtag is examined after one that was not consumed)')
+            return
+        if last and not tok.consumed and st.end[0] == 'head' and not [x for x in st.stores if x[2] is tok]:
+            # examined (its class narrowed by the tests that failed), neither consumed nor stored: the same element is under the cursor when the
+            # next segment starts, with what this path has learned about it (PX carries the cursor element across the cut) - judged there
+            work.append((st.end[1], q))
+            return
+        rows = self.spec[q]
+        if tok.present == 'neg':
+            for r in rows:
+                if r.name == 'END':
+                    nq = self.check_row(sub, tok, q, r, None)
+                    if last and nq is not None and st.end[0] == 'head':
+                        work.append((st.end[1], nq))
+            return
+        S = tok.shape if tok.shape is not None else TOP
+        matched = False
+        for r in rows:
+            if r.shape is None:
+                continue
+            inter = S.intersect(r.shape)
+            if inter.is_empty():
+                continue
+            matched = True
+            nq = self.check_row(sub, tok, q, r, inter)
+            nq = nq if nq is not None else q
+            if last:
+                if st.end[0] == 'head':
+                    work.append((st.end[1], nq))
+            elif r.outcome in ('consume', 'skip', 'call', 'subparse', 'either', 'default-language'):
+                self.run_multi(st, toks, i + 1, nq, work)
+            # a row that ends the parse (yield / reject / defer) while the code goes on to the next subtag has been reported by check_row
+        if not matched and not S.is_empty():
+            self.add('PARSE-TABLE', q, '-', 'token class not covered by the specification table: %s' % S.describe()[:100])
 
     # ---- one step against one row
     def check_row(self, st, tok, q, r, inter):
